@@ -89,6 +89,11 @@ pub fn run_case(
         }
     };
     t.cases += 1;
+    let cfg_o = subj.cfg_override();
+    let cfg: &[i128] = match &cfg_o {
+        Some(c) => c,
+        None => cfg,
+    };
     writeln!(t.out, "C {} {} {}", id, kind, join(cfg)).unwrap();
     if !meta.is_empty() {
         writeln!(t.out, "X {}", meta).unwrap();
@@ -111,6 +116,10 @@ pub fn run_case(
         }
         let mut res: Option<Ints> = None;
         let r = tracked(&mut || res = Some(subj.apply(&op))).map(|_| res.take().unwrap());
+        let op = match subj.take_op_rewrite() {
+            Some(o) => o,
+            None => op,
+        };
         match r {
             Ok(out) => {
                 let (dk, dv, dd, cb) = ledger_drain();
